@@ -6,9 +6,9 @@ BUILT = json.load(open('/verif/tools/built.json'))
 
 P = {
  "C01": dict(
-  technique="bounded-exhaustive atom strings + random junk/AST documents through clean/list/list_all (proptest-driven, shrinking), validity oracle (returns, valid JSON); libFuzzer target in the thorough tier",
-  text="Exploration: every atom string up to a bound for 24 delimiter pairs (incl. hostile ones) and random junk / structured documents are pushed through clean, list and list_all in both formats under random configurations, built with overflow checks; any panic, Err, or unparsable JSON is a violation. Totality over an infinite input space cannot be proved by testing; the enumerated sub-space is complete.",
-  note="Assumes non-empty delimiters (stated in the property). Nesting depth bounded by generated size. A process abort (stack overflow) of the harness is reported as inconclusive, not as a violation.",
+  technique="bounded-exhaustive element-building atom strings (27 delimiter pairs) + random junk / AST / hostile-layout / mutated documents through clean, list, list_all x 2 formats (proptest-driven, shrinking, text minimisation), validity oracle (returns, Ok, JSON parses); process-abort isolation with breadcrumbs; libFuzzer target fz_total in the thorough tier",
+  text="Exploration: every atom string up to a bound for 27 delimiter pairs (incl. hostile ones: space, line break, quote, letters) and random junk / structured / hostile-layout documents (shared tag lines, straddling children, text glued to tags, multi-byte words, CRLF) are pushed through all five entry points under random configurations, built with overflow checks; any panic, Err, unparsable JSON or abort of the process is a violation. Totality over an infinite input space cannot be proved by testing; the enumerated sub-space is complete.",
+  note="Assumes non-empty delimiters (stated in the property). Nesting depth bounded by generated size (reported). A hang is reported as inconclusive (watchdog), never as a violation.",
   ref="6/C01"),
  "C02": dict(
   technique="random AST documents (ground truth by construction) and junk/mutated documents (reference model R1-R5) compared with clean: deletion-only + every outside non-whitespace character present in order",
@@ -56,7 +56,7 @@ P = {
   note="Tokenization is trusted here (C07/C08 cover it).",
   ref="6/C10"),
  "C11": dict(
-  technique="random and grid-enumerated AST block documents; by-construction expected lines modulo indentation; strict line-for-line sub-space",
+  technique="grid-enumerated and random AST block documents with per-line ground truth by construction; expected surviving lines modulo indentation; strict line-for-line sub-space; structural shrinking",
   text="Exploration: unwrap elements with 0..6 body lines at every position; the surviving lines are known by construction.",
   note="Tags never sit on wrapper lines; blank residue lines are only asserted in the strict sub-space (section 6/C11).",
   ref="6/C11"),
@@ -81,9 +81,9 @@ P = {
   note="Domain as stated in the property (tags off wrapper lines, wrapper lines non-empty code, first byte not a line break).",
   ref="6/C15"),
  "C16": dict(
-  technique="differential against an independent renderer written from the property text, for list and list_all in both formats",
-  text="Exploration: every item of every generated document is re-rendered by a reference renderer and compared byte for byte; JSON validity and key set checked.",
-  note="Text left of a marker is ASCII (the property's own restriction).",
+  technique="rendering rule re-derived from the source for every item of list and list_all (line set, per-line numbers, fixed-width number column read off the output, tab expansion, marker columns with tab = 4), strict JSON shape, pretty-vs-JSON agreement after stripping SGR colour codes",
+  text="Exploration: every item of every generated document (regions at any column, tabs left of / inside regions, single- and multi-line, pending and ready, first byte a line break) is checked against the rule stated in the property; JSON validity and exact key set; the pretty form must contain exactly the JSON blocks in order.",
+  note="Text left of a marker is ASCII (the property's own restriction). Header wording, colours and the width of the number column are not fixed by the property and are not asserted.",
   ref="6/C16"),
  "C17": dict(
   technique="random AST documents with 0..4 pending siblings/children; by-construction expected (first,last,status) sequence vs list_all JSON and vs list",
@@ -101,7 +101,7 @@ P = {
   note="Tags off wrapper lines and non-blank wrapper lines (otherwise composition is false by the definition of unwrap-block).",
   ref="6/C19"),
  "C20": dict(
-  technique="differential: the chiritori binary (rebuilt from /repo) under generated option combinations, I/O paths, config files and TZ/locale settings vs the library result",
+  technique="differential: the chiritori binary (rebuilt from /repo) under generated option combinations, 10-11 runs per case over I/O paths (file/stdin x stdout/--output/in-place), long and short options, config file vs flags, explicit vs omitted defaults and 5 TZ/locale environments, compared byte for byte with the library result",
   text="Exploration: process-level differential testing across I/O variants, config-file vs flags, defaults and environment.",
   note="Arguments in --opt=value form; current time always given as RFC 3339 with offset.",
   ref="6/C20"),
